@@ -71,6 +71,11 @@ def replay_mask_state(ctx, pid, st, k, rnd):
             region = geom.build_via_assign(s, fr, lambda r: (r.to_mask(mode='center'), r.to_mask(mode='subpixels', subpixels=3) if geom_supported(s, 'subpixels') else None))
         else:
             region = geom.build(s, fr)
+        if k % 3 == 2:
+            # a mask handed out earlier for an equal region belongs to the caller, who may write into it (normalise, threshold):
+            # that must not show in any mask made later
+            early = geom.build(s, fr).to_mask(mode='center') if n == 1 else geom.build(s, fr).to_mask(mode='subpixels', subpixels=n)
+            np.asarray(early.data)[...] = -7.0
         if n == 1:
             mask = region.to_mask(mode='center')
             if geom_supported(s, 'subpixels'):
